@@ -789,8 +789,16 @@ class Sym(Interp):
         # record which calls sit inside which try (handlers by type) for the exception-propagation rules
         start = len(self.facts)
         out = super().st_Try(s, env, ctx)
+        def passes_on(h):
+            # the handler ends by re-raising what it caught and has no other way out: it swallows nothing
+            last = h.body[-1] if h.body else None
+            if not (isinstance(last, ast.Raise) and (last.exc is None or (isinstance(last.exc, ast.Name) and last.exc.id == h.name and last.cause is None))):
+                return False
+            return not any(isinstance(x, (ast.Return, ast.Break, ast.Continue)) for st_ in h.body for x in ast.walk(st_))
         types = []
         for h in s.handlers:
+            if passes_on(h):
+                continue
             if h.type is None:
                 types.append("*")
             else:
@@ -802,7 +810,7 @@ class Sym(Interp):
                 if hasattr(x, "lineno"):
                     body_lines.add(id(x))
         for f in self.facts[start:]:
-            if id(f.node) in body_lines:
+            if types and id(f.node) in body_lines:
                 f.__dict__.setdefault("in_try", []).append((s, tuple(types)))
         return out
 
